@@ -1,5 +1,6 @@
 #![allow(static_mut_refs)]
 #![allow(dead_code)]
+mod watchdog;
 mod compx;
 mod corruptx;
 mod crashx;
@@ -28,6 +29,32 @@ fn usage() -> ! {
 
 /// Determinism self-test: one fixed program executed twice under the same schedule must give
 /// byte-identical observation logs (results + filesystem operation log).
+/// The self-test runs the subject: do it in a child process under the progress watchdog, so that a
+/// subject that hangs or aborts cannot take the front end with it (that is for the checks to
+/// report). Only a determinism failure is an error here.
+fn selftest_isolated() -> Result<(), String> {
+    let shm = shm::Shm::new(16, 1 << 16);
+    let pid = unsafe { libc::fork() };
+    if pid == 0 {
+        watchdog::arm();
+        let code = match selftest() {
+            Ok(()) => 0,
+            Err(e) => {
+                shm.push_record(b'E', e.as_bytes());
+                3
+            }
+        };
+        unsafe { libc::_exit(code) };
+    }
+    let mut st: libc::c_int = 0;
+    unsafe { libc::waitpid(pid, &mut st, 0) };
+    if libc::WIFEXITED(st) && libc::WEXITSTATUS(st) == 3 {
+        let msg = shm.records().into_iter().find(|(t, _)| *t == b'E').map(|(_, d)| String::from_utf8_lossy(&d).to_string()).unwrap_or_else(|| "self-test failed".into());
+        return Err(msg);
+    }
+    Ok(())
+}
+
 fn selftest() -> Result<(), String> {
     use std::sync::{Arc, Mutex};
     use world::*;
@@ -213,7 +240,7 @@ fn main() {
     if tier != "quick" && tier != "thorough" {
         usage();
     }
-    if let Err(e) = selftest() {
+    if let Err(e) = selftest_isolated() {
         let mut rep = Report::new(&args[1], tier, "model_checking");
         rep.machinery.push(e);
         rep.cov("states", json!(0));
